@@ -372,7 +372,7 @@ def run(ctx: Ctx) -> int:
     if r.coverage:
         ctx.extra["actions_never_taken"] = [a for a, c in r.coverage.items() if c == 0 and a[0].isupper() and a not in ("Init", "InitFile", "NextFile")]
     # ---- code -> spec
-    count = 70 if ctx.quick else 1500
+    count = 70 if ctx.quick else 5000
     rjobs = random_jobs(rng, count)
     routs = run_jobs(ctx, rjobs)
     traces = []
